@@ -512,3 +512,15 @@ def _b_rename(root):
         tree = ast.parse(open(p).read())
         _rename_locals_in(tree)
         open(p, "w").write(ast.unparse(tree) + "\n")
+
+
+# ---- added after the second round of fixes
+mut("sb-sub-narrow", ["C01"], "qlasskit/types/qint.py", "minuend complemented at its own width")(
+    lambda t: replace_expr("QintImp.sub", "wide.fill(tleft)", "cls.fill(tleft)")(t) and replace_expr("QintImp.sub", "wide.fill(tright)", "cls.fill(tright)")(t)
+)
+mut("sb-shiftadd", ["C01"], "qlasskit/types/qint.py", "remainder of an even constant handled by one shift")(
+    replace_expr("QintImp.mul_even_const", "QintImp.mul_even_const(t_num, r, result_type)", "result_type.shift_left((result_ttype, t_num[1]), int(r / 2))")
+)
+mut("mp-relabel-unguarded", ["C12"], "qlasskit/decompiler/decopt.py", "relabelled sections are spliced")(
+    lambda t: rewrite_in(t, "circuit_boolean_optimizer", lambda n: isinstance(n, ast.If) and "qubit_map.get" in norm(n.test), lambda n: ast.Pass())
+)
